@@ -7,25 +7,34 @@ from fractions import Fraction
 import numpy as np
 
 import common
-from common import Case, Issue, q, ql, line
+from common import Case, Issue, q, ql, il, line
 
 ID = "C13"
 LEVEL = "proof"
 RULE = ("cases = replicate arrays (N,)+Y (constant, discrete, skewed, outlier-laden, NaN-containing; Y in {(), (2,), "
         "(2,2)}) x estimate inside/outside the range x alpha scalar / array x method quantile/bc/bca; each case also "
-        "runs the implementation on a shuffled+NaN-padded copy, an affine image, a second alpha and per component; "
+        "runs the implementation on a shuffled+NaN-padded copy, an affine image, a second alpha and per component, and "
+        "sends the WHOLE-ARRAY call (quantile: also vector alphas of shape (k,) and (2,2); bc/bca: also the call "
+        "without an estimate) to the array-level model bootstrapCIVec; "
         "non-trivial = distinct input with NaNs or ties or an estimate outside the replicate range or method != quantile")
 EXPLANATION = ("The model is the documented formula (C13_*_levels); theorems derive ordering, range, NaN/order invariance, "
                "affine equivariance and nesting for all replicate lists, for any monotone normal cdf/ppf oracles. The "
                "correspondence run feeds the model the values returned by the real scipy.stats.norm.ppf/cdf calls made "
                "by utils.bootstrap_ci (recorded), compares the limits, and evaluates the derived clauses on the "
-               "implementation's outputs and on pairs of real runs.")
+               "implementation's outputs and on pairs of real runs. The axis bookkeeping (ravel of alpha, stack, nanquantile "
+               "axis=0, reshape, moveaxis([0,1]->[-1,-2]), reshape to Y+A+(2,); bc/bca flattening and loop) is a separate "
+               "code-shaped model on row-major N-d arrays; C13_vec_quantile / C13_vec_bc prove that its entry [y,a,k] is "
+               "the one-component formula on theta[:,y] at alpha[a] for every rank, and the op bootcivec evaluates both "
+               "the model and that prescribed array on the implementation's whole-array output.")
 TRUSTED_BASE = ["Lean 4.33 kernel", "axioms propext/Classical.choice/Quot.sound only",
                 "hand-written model SA/Model/Bootstrap.lean tied to /repo by this correspondence run",
                 "scipy.stats.norm.ppf/cdf and x**1.5 as oracles (recorded values; monotonicity is a theorem hypothesis)",
-                "np.nanquantile(method='linear') modelled by its documented formula", "harness and driver parsing"]
+                "np.nanquantile(method='linear') modelled by its documented formula",
+                "NumPy reshape / stack / moveaxis / transpose modelled by their documented C-order meaning (SA/Model/NdArray.lean)",
+                "harness and driver parsing"]
 ASSUMPTIONS = ["finite or NaN replicates, finite estimate", "alpha in (0,1)",
-               "BCa cases within 1e-6 of the pole 1 - a*s = 0 are skipped"]
+               "BCa cases within 1e-6 of the pole 1 - a*s = 0 are skipped",
+               "bc/bca: scalar alpha and an estimate of the metric's shape (other broadcasts are outside the array model)"]
 METHODS = ["quantile", "bc", "bca"]
 
 
@@ -224,8 +233,52 @@ def build(inp) -> Case:
                     p15_in=_erat_list([s2]), p15_out=_erat_list([p15]),
                     lo=_orat(float(cif[j][0])), hi=_orat(float(cif[j][1])))
 
-    lines = [mkline(j) for j in range(ncomp)]
-    inp["_evals"] = ncomp * 6
+    # ---- whole-array calls for the array-level model (op bootcivec) ----
+    theta_f = np.asarray(theta, dtype=float)
+    p15_in = [float(np.nansum((np.array(cols[j], dtype=float) - inp["th"][j]) ** 2)) for j in range(ncomp)]
+    p15_out = [float(x ** 1.5) for x in p15_in]
+
+    def mkvec(alpha_arr, impl):
+        """driver line for utils.bootstrap_ci(theta, th, alpha_arr) with the implementation's outcome `impl`"""
+        al = np.asarray(alpha_arr, dtype=float)
+        kw = dict(theta=ql(theta_f.reshape(-1).tolist()), tshape=il(theta_f.shape),
+                  alpha=ql(al.reshape(-1).tolist()), ashape=il(al.shape), method=method, eps=q(Fraction(tol)),
+                  ppf_in=_erat_list(tables["ppf_in"]), ppf_out=_erat_list(tables["ppf_out"]),
+                  cdf_in=_erat_list(tables["cdf_in"]), cdf_out=_erat_list(tables["cdf_out"]),
+                  p15_in=_erat_list(p15_in), p15_out=_erat_list(p15_out))
+        if impl.get("th", True) and method != "quantile":
+            kw["th"] = ql(np.asarray(th, dtype=float).reshape(-1).tolist()); kw["thshape"] = il(th.shape)
+        else:
+            kw["th"] = "none"
+        if impl["kind"] == "exc":
+            kw["obs_err"] = impl["name"]
+        else:
+            o_ = np.asarray(impl["value"], dtype=float)
+            kw["obs"] = ql(o_.reshape(-1).tolist()); kw["oshape"] = il(o_.shape)
+        return line("bootcivec", **kw)
+
+    vec = []  # (description, alpha array, implementation outcome)
+    vec.append((f"alpha {alpha}", alpha, {"kind": "ok", "value": ci}))
+    if method == "quantile":
+        a1, a2 = alpha, inp["alpha2"]
+        k_ = 2 + inp["perm_seed"] % 2
+        for al_ in (np.array([a1, a2, a1 / 2][:k_]), np.array([[a1, a2], [a2 / 2, a1 / 4]])):
+            rv = run(theta, th, al_)
+            if rv[0] == "exc":
+                pre.append(Issue("PROPFAIL", "vectorised", f"alpha array of shape {al_.shape}: raised {rv[1]}: {rv[2]}",
+                                 "bootci/vectorised/raises"))
+            else:
+                vec.append((f"alpha array {al_.tolist()}", al_, {"kind": "ok", "value": rv[1]}))
+    else:
+        # documented error branch: bc / bca need the estimate
+        rn = common.call(utils.bootstrap_ci, theta, None, alpha, method=method)
+        if rn[0] == "exc":
+            vec.append(("no estimate", alpha, {"kind": "exc", "name": rn[1], "th": False}))
+        else:
+            pre.append(Issue("PROPFAIL", "vectorised", f"method {method} without theta_hat did not raise", "bootci/vectorised/no-estimate"))
+
+    lines = [mkline(j) for j in range(ncomp)] + [mkvec(al_, impl) for _, al_, impl in vec]
+    inp["_evals"] = ncomp * 6 + 3 * len(vec)
     tags = [method, f"Y={yshape}", f"N={n}"]
     if theta.dtype.kind == "i":
         tags.append("int64-replicates")
@@ -234,9 +287,59 @@ def build(inp) -> Case:
 
     oracle_filled = [0]
 
+    def judge_vec(outs):
+        """the whole-array calls: PROPFAIL when the prescribed array (spec.*) rejects the implementation's output,
+        DISAGREE when only the code-shaped model differs"""
+        iss = []
+        for (desc, al_, impl), o in zip(vec, outs):
+            if "ERR" in o:
+                continue  # reported by the runner as a driver error
+            misses = common.plist(o["miss"])
+            rounds = 0
+            while misses and rounds < 3 and all(m.startswith(("ppf:", "cdf:")) for m in misses):
+                rounds += 1
+                for m_ in misses:
+                    kind, arg = m_.split(":", 1)
+                    x = math.inf if arg == "inf" else (-math.inf if arg == "-inf" else float(Fraction(arg)))
+                    val = float(getattr(scipy.stats.norm, kind)(x))
+                    tables[kind + "_in"].append(x); tables[kind + "_out"].append(val)
+                o = common.run_driver([mkvec(al_, impl)])[0]
+                misses = common.plist(o["miss"])
+                oracle_filled[0] += 1
+            if misses:
+                iss.append(Issue("ORACLE-MISS", "oracle", f"whole-array model query not among the recorded scipy calls: {misses}", "bootci/vectorised/oracle-miss"))
+                continue
+            pole = common.pfrac(o["pole"])
+            if pole is not None and pole < Fraction(1, 10**6):
+                case.skipped += 1
+                continue
+            if impl["kind"] == "exc":
+                if o.get("spec.raises") != "1":
+                    iss.append(Issue("PROPFAIL" if impl["name"] != "ValueError" else "DISAGREE", "vectorised",
+                                     f"{desc}: implementation raised {impl['name']}, model gives {o.get('err', 'a result')}",
+                                     f"bootci/vectorised/{method}/raises"))
+                continue
+            obs = np.asarray(impl["value"], dtype=float)
+            if o.get("spec.shape") != "1":
+                iss.append(Issue("PROPFAIL", "vectorised", f"{desc}: shape {obs.shape} for metric shape {yshape} and alpha shape "
+                                 f"{list(np.shape(al_))} (method {method})", f"bootci/vectorised/{method}/shape"))
+            elif o.get("spec.entries") != "1":
+                exp = [_fl(x) for x in common.plist(o["expected"])]
+                iss.append(Issue("PROPFAIL", "vectorised", f"{desc}, method {method}, metric shape {yshape}: entry [y..., a..., k] is not "
+                                 f"the limit k of component y at alpha[a]: impl {obs.reshape(-1).tolist()} vs per-component formula {exp}; "
+                                 f"theta {theta_f.tolist()}", f"bootci/vectorised/{method}/entries"))
+            elif "err" in o or o.get("agree") != "1":
+                iss.append(Issue("DISAGREE", "vectorised", f"{desc}: array model gives {o.get('err') or o.get('data')} (shape {o.get('shape')}), "
+                                 f"impl {obs.reshape(-1).tolist()} (shape {obs.shape})", f"bootci/vectorised/{method}/model"))
+            if "err" not in o and o.get("model_eq_spec") != "1":
+                iss.append(Issue("DISAGREE", "vectorised", f"{desc}: the array model and the prescribed array differ (contradicts C13_vec_*): "
+                                 f"model {o.get('data')} expected {o.get('expected')}", f"bootci/vectorised/{method}/theorem"))
+        return iss
+
     def judge(outs):
         iss = []
-        for j, o in enumerate(outs):
+        iss.extend(judge_vec(outs[ncomp:]))
+        for j, o in enumerate(outs[:ncomp]):
             misses = common.plist(o["miss"])
             # The model asked the oracle something the implementation did not ask: answer it with
             # the real scipy functions (they are the oracle) and evaluate the formula again.
